@@ -25,6 +25,8 @@ const (
 )
 
 type referrerKey struct {
+	repo         string
+	subject      string
 	dig          digest.Digest
 	artifactType string
 }
@@ -65,7 +67,7 @@ func (s *Server) referrerGet(repoStr, arg string) http.HandlerFunc {
 				_ = types.ErrRespJSON(w, types.ErrInfoUnsupported("requested digest is not valid"))
 				return
 			}
-			if cacheResp, err := s.referrerCache.Get(referrerKey{dig: dig, artifactType: filterAT}); err == nil && page < len(cacheResp) {
+			if cacheResp, err := s.referrerCache.Get(referrerKey{repo: repoStr, subject: arg, dig: dig, artifactType: filterAT}); err == nil && page < len(cacheResp) {
 				if page+1 < len(cacheResp) {
 					next := r.URL
 					q := next.Query()
@@ -108,7 +110,7 @@ func (s *Server) referrerGet(repoStr, arg string) http.HandlerFunc {
 			return
 		}
 		// check page cache for digest, two users requesting same referrer list
-		if cacheResp, err := s.referrerCache.Get(referrerKey{dig: d.Digest, artifactType: filterAT}); err == nil {
+		if cacheResp, err := s.referrerCache.Get(referrerKey{repo: repoStr, subject: arg, dig: d.Digest, artifactType: filterAT}); err == nil {
 			if page >= len(cacheResp) {
 				page = 0
 			}
@@ -167,7 +169,7 @@ func (s *Server) referrerGet(repoStr, arg string) http.HandlerFunc {
 				return
 			}
 			// cache the split
-			s.referrerCache.Set(referrerKey{dig: d.Digest, artifactType: filterAT}, split)
+			s.referrerCache.Set(referrerKey{repo: repoStr, subject: arg, dig: d.Digest, artifactType: filterAT}, split)
 			// set the requested page output and next link
 			if page > 0 && (cacheDig != d.Digest.String() || page >= len(split)) {
 				page = 0
@@ -183,7 +185,7 @@ func (s *Server) referrerGet(repoStr, arg string) http.HandlerFunc {
 			out = split[page]
 		} else {
 			// cache the result
-			s.referrerCache.Set(referrerKey{dig: d.Digest, artifactType: filterAT}, [][]byte{out})
+			s.referrerCache.Set(referrerKey{repo: repoStr, subject: arg, dig: d.Digest, artifactType: filterAT}, [][]byte{out})
 		}
 		w.Header().Add("content-length", fmt.Sprintf("%d", len(out)))
 		w.WriteHeader(http.StatusOK)
